@@ -74,10 +74,18 @@ def check_C14(run):
     with open(corpus, "w") as f:
         for q in texts:
             f.write(json.dumps(q) + "\n")
+    # a second corpus of deeply nested queries only: many goroutines are then deep inside Parse / Render at the same time
+    deep = ["NOT " * 150 + "a:b", "(" * 120 + "a:b AND c:d" + ")" * 120, "+(" * 100 + "x:[1 TO 5]" + ")" * 100, "a:b AND " * 150 + "c:d",
+            "NOT(" * 140 + "a:(x OR y)" + ")" * 140, "-(" * 130 + "f:w*" + ")" * 130, "(a:b OR " * 110 + "c:d" + ")" * 110, "NOT " * 160 + "z"]
+    deepcorpus = os.path.join(run.work, "corpus_deep.ndjson")
+    with open(deepcorpus, "w") as f:
+        for q in deep:
+            f.write(json.dumps(q) + "\n")
     racebin = build_race_harness()
     configs = [(4, 300), (16, 150), (16, 150)] if run.tier == "quick" else [(4, 800), (16, 400), (64, 150)] + [(8 + 8 * i, 200) for i in range(12)]
+    configs = [(g, per, corpus) for g, per in configs] + ([(16, 40, deepcorpus)] if run.tier == "quick" else [(16, 100, deepcorpus), (64, 40, deepcorpus)])
     total_events, accepted = 0, 0
-    for i, (g, per) in enumerate(configs):
+    for i, (g, per, corpus) in enumerate(configs):
         td = run.sub("conc_%d" % i)
         trace = os.path.join(td, "trace.ndjson")
         env = dict(os.environ, GORACE="log_path=%s halt_on_error=0 exitcode=0" % os.path.join(td, "race"))
